@@ -6,11 +6,14 @@ by an arbitrary environment — replies become available in any order and at any
 invoked at any moment (with or without a reply, including stale wakers of an earlier, cancelled broadcast), the
 broadcast is polled at any moment, dropped at any moment, its reply iterator consumed partially — and the cached
 read-write lock through which port clones share their connection list.  No bound on the number of repliers or on
-the length of the history.  Operations are atomic in this model (the lock-free internals of the task set are
-covered by the repository's loom tests, not by these theorems).
+the length of the history.  Task-set operations are atomic in M-BCAST; that they can be taken as atomic — no wake-up of a
+sub-task is lost, the parent is notified after the requested number of wake-ups — is proved over M-TSET
+(Model/TSet.lean: the Treiber stack of `util/task_set.rs` at the granularity of its atomic operations, any number of
+concurrent wakers), at the end of this file.
 -/
 import NexoVerif.Lemmas.BcastLive
 import NexoVerif.Lemmas.BcastLock
+import NexoVerif.Lemmas.TSetThm
 import NexoVerif.Extracted
 
 namespace NexoVerif.Bcast
@@ -166,3 +169,54 @@ example :
 example : (lstep (lrun [.clone 0, .writePush 1 7, .read 0, .writePush 0 8]) (.read 1)).2 = some [7, 8] := by decide
 
 end NexoVerif.Bcast
+
+/-! ## The task set (M-TSET)
+
+`BroadcastFuture::poll` asks the task set for the sub-tasks that were woken (`take_scheduled`, then the iterator) and,
+when there are none, for a notification after a number of wake-ups.  Wakers run on any thread at any time.  M-TSET is
+`util/task_set.rs` at the granularity of its atomic operations: `wake_by_ref` (load `next`; if SLEEPING load the head
+and claim the task by a CAS on `next`, else confirm by a no-op CAS; the claimer pushes with a CAS on the head that also
+decrements the countdown, repairing `next` with a swap after a failed attempt; the push that takes the countdown from 1
+to 0 notifies), `take_scheduled` (one read-modify-write of the head) and the iterator (a swap per element).  Any number
+of waker threads, several per task, every interleaving, sequentially consistent. -/
+namespace NexoVerif.TSet
+
+/-- **task_set_program_shape** — the atomic operations of the three functions, in textual order with their orderings,
+read from the source on every run: they are the steps of M-TSET. -/
+theorem task_set_program_shape :
+    Extracted.taskSetWake = [.load "next" .relaxed, .load "head" .relaxed, .cas "next" .relaxed .relaxed,
+      .cas "next" .release .relaxed, .cas "head" .release .relaxed, .call "arc_self.shared.notifier.notify",
+      .rmw "next" "swap" .relaxed] ∧
+    Extracted.taskSetTake = [.load "head" .relaxed, .cas "head" .acquire .relaxed] ∧
+    Extracted.taskSetIterNext = [.rmw "next" "swap" .acquire] := by decide
+
+/-- **no_sub_task_wake_up_is_lost** — in every reachable state a task for which a wake-up has taken effect, and which
+the iterator has not yielded since, is in the chain hanging off the head, or in the chain the iterator is still
+walking, or held by exactly one waker thread that has claimed it and whose next step pushes it; and when nothing is in
+progress it is in the chain hanging off the head, where the next `take_scheduled` finds it. -/
+theorem no_sub_task_wake_up_is_lost {n m : Nat} {s : St} (hr : Reach n m s) (i : Nat) (hi : i < s.n)
+    (hn : s.need i = true) :
+    (i ∈ s.stack ∨ i ∈ s.iter ∨
+      ∃ w, Pusher s w i ∧ (∃ l, (step l s).isSome = true) ∧ ∀ w', Pusher s w' i → w' = w) ∧
+    (Quiescent s → i ∈ s.stack) :=
+  ⟨woken_task_is_on_its_way hr i hi hn, fun hq => no_wake_is_lost hr hq i hi hn⟩
+
+/-- **scheduled_chains_are_well_formed** — the head word designates the top of the chain, the iterator's cursor the first
+element of its chain, consecutive elements are linked through their `next` words, no task is in a chain twice or in both
+chains, and the iterator never reads SLEEPING. -/
+theorem scheduled_chains_are_well_formed {n m : Nat} {s : St} (hr : Reach n m s) :
+    s.head.ix = s.stack.head? ∧ s.cur = s.iter.head? ∧ Linked s.next s.stack ∧ Linked s.next s.iter ∧
+    (s.stack ++ s.iter).Nodup ∧ s.err = false := chains_are_well_formed hr
+
+/-- **parent_task_is_notified** — after a `take_scheduled(c)` that found nothing, the countdown in the head is `c` minus
+the number of pushes since, and once `c > 0` pushes have happened one of them has taken it from 1 to 0 (that waker's
+next step is the notification of the parent task). -/
+theorem parent_task_is_notified {n m : Nat} {s : St} (hr : Reach n m s) :
+    s.head.cd = s.armed - s.pushes ∧ (0 < s.armed → s.armed ≤ s.pushes → s.fired = true) :=
+  parent_is_notified_after_countdown hr
+
+-- non-vacuity: three tasks, two waker threads racing on the head; both tasks are yielded, one notification
+example : (runLabels exSchedule (St.init 3 2)).map (fun s => (s.yielded, s.notified, s.stack, s.cur, s.err)) =
+    some ([2, 1], 1, [], none, false) := example_run
+
+end NexoVerif.TSet
